@@ -58,7 +58,7 @@ def make_case(unit):
     template = TEMPLATES[i % len(TEMPLATES)]
     j = i // len(TEMPLATES)
     wmode = WEIGHTS[j % len(WEIGHTS)]
-    ins = INS[(j // len(WEIGHTS)) % len(INS)]
+    ins = INS[gen.stratum(ID, i, 1, len(INS))]
     N = g.pick([0, 1, 3, 6, 10, 16, 25, 40, 60, 30, 20])
     facets = cases.random_facets(g, template, N, square=g.pick([None, None, 2, 3])
                                  if "numarr" not in template else None)
